@@ -52,6 +52,9 @@ pub struct CfbChoices {
     pub dir_holes: bool,
     /// backward links in the DIFAT chain when there are several DIFAT sectors
     pub difat_backwards: bool,
+    /// stream chains (regular and mini) own 1-2 sectors more than their length needs
+    /// (pre-allocation by the writer; readers must stop at the stream length)
+    pub overalloc: bool,
 }
 
 impl Default for CfbChoices {
@@ -65,6 +68,7 @@ impl Default for CfbChoices {
             shuffle_dir: false,
             dir_holes: false,
             difat_backwards: false,
+            overalloc: false,
         }
     }
 }
@@ -80,6 +84,7 @@ impl CfbChoices {
             shuffle_dir: rng.bool(),
             dir_holes: rng.chance(1, 3),
             difat_backwards: rng.bool(),
+            overalloc: rng.chance(1, 4),
         }
     }
     pub fn features(&self) -> Vec<String> {
@@ -97,6 +102,9 @@ impl CfbChoices {
         }
         if self.dir_holes {
             f.push("dir_holes".into());
+        }
+        if self.overalloc {
+            f.push("overallocated_chains".into());
         }
         f
     }
@@ -139,7 +147,7 @@ pub fn build(entries: &[Entry], ch: &CfbChoices, rng: &mut Rng) -> Built {
     for (i, e) in entries.iter().enumerate() {
         if let Some(d) = &e.data {
             if !d.is_empty() && d.len() < 4096 {
-                let k = d.len().div_ceil(64);
+                let k = d.len().div_ceil(64) + if ch.overalloc { 1 + rng.usize(2) } else { 0 };
                 mini_chains[i] = (n_mini as u32..(n_mini + k) as u32).collect();
                 n_mini += k;
             }
@@ -157,8 +165,13 @@ pub fn build(entries: &[Entry], ch: &CfbChoices, rng: &mut Rng) -> Built {
         let d = e.data.as_ref().unwrap();
         for (k, lj) in chain.iter().enumerate() {
             let phys = mini_perm[*lj as usize];
-            let src = &d[k * 64..d.len().min((k + 1) * 64)];
-            mini_container[phys * 64..phys * 64 + src.len()].copy_from_slice(src);
+            if k * 64 >= d.len() {
+                // pre-allocated mini sector beyond the end of the stream: junk
+                mini_container[phys * 64..phys * 64 + 64].fill(0xAB);
+            } else {
+                let src = &d[k * 64..d.len().min((k + 1) * 64)];
+                mini_container[phys * 64..phys * 64 + src.len()].copy_from_slice(src);
+            }
             mini_fat[phys] = match chain.get(k + 1) {
                 Some(n) => mini_perm[*n as usize] as u32,
                 None => ENDOFCHAIN,
@@ -188,7 +201,7 @@ pub fn build(entries: &[Entry], ch: &CfbChoices, rng: &mut Rng) -> Built {
     for (i, e) in entries.iter().enumerate() {
         if let Some(d) = &e.data {
             if d.len() >= 4096 {
-                demand.push((Owner::Stream(i), d.len().div_ceil(ss)));
+                demand.push((Owner::Stream(i), d.len().div_ceil(ss) + if ch.overalloc { 1 + rng.usize(2) } else { 0 }));
             }
         }
     }
@@ -459,8 +472,13 @@ pub fn build(entries: &[Entry], ch: &CfbChoices, rng: &mut Rng) -> Built {
     }
     let put = |file: &mut Vec<u8>, c: &[u32], d: &[u8]| {
         for (k, s) in c.iter().enumerate() {
-            let src = &d[k * ss..d.len().min((k + 1) * ss)];
             let at = (*s as usize + 1) * ss;
+            if k * ss >= d.len() {
+                // pre-allocated sector beyond the end of the stream: junk
+                file[at..at + ss].fill(0xAB);
+                continue;
+            }
+            let src = &d[k * ss..d.len().min((k + 1) * ss)];
             file[at..at + src.len()].copy_from_slice(src);
         }
     };
